@@ -279,6 +279,7 @@ def r3_parser(ctx, MAX):
         # flush_pending from every partition: copies pending[0..idx) and resets
         guarded(ctx, 'C08.R3', 'C08.R3/flush_pending', flush_rule, cfg, res, MAX)
     guarded(ctx, 'C08.R3', 'C08.R3/parse_smt_literal', parser_ts.literal_plumbing_c08)
+    guarded(ctx, 'C08.R3', 'C08.R3/parse_smt_literal-driver', parser_ts.literal_driver, 'C08.R3')
 
 
 def flush_rule(ctx, cfg, res, MAX):
